@@ -65,7 +65,9 @@ theorem addPulse_last {ms : Option Nat} {c c' : ChanState} {others : List ChanSt
 theorem addCore_ok_spec {s : SeqState} (hi : SeqInv s) {p : PulseIn} {n : ChName} {proto : Protocol}
     {drift : Option Drift} (h : (addCore s p n (some proto) drift).err = none) :
     ∃ (c c' : ChanState) (last slot : Slot) (pr : PulseRec) (ref : Option Rat),
-      s.getChan n = some c ∧ c.last = .ok last ∧ validateAndAdjust c p ref = .ok pr ∧
+      s.getChan n = some c ∧ c.last = .ok last ∧
+      ref = (if c.cfg.isDmm = true then none else (s.lastPhases c.cfg.basis last.targets).head?) ∧
+      validateAndAdjust c p ref = .ok pr ∧
       makeNextPulseSlot s.dev.maxSeqDur c (s.others n) pr (s.lastTimes c.cfg.basis last.targets)
         proto drift true = .ok slot ∧
       (addCore s p n (some proto) drift).st.getChan n = some c' ∧ c'.last = .ok slot := by
@@ -84,7 +86,7 @@ theorem addCore_ok_spec {s : SeqState} (hi : SeqInv s) {p : PulseIn} {n : ChName
       · simp [fail] at h
       · rename_i hsame
         rw [if_neg hsame]
-        generalize (if c.cfg.isDmm = true then none else
+        generalize hpe : (if c.cfg.isDmm = true then none else
           (s.lastPhases c.cfg.basis last.targets).head?) = phaseRef at h ⊢
         cases hpr : validateAndAdjust c p phaseRef with
         | error e => simp [hpr, fail] at h
@@ -100,7 +102,7 @@ theorem addCore_ok_spec {s : SeqState} (hi : SeqInv s) {p : PulseIn} {n : ChName
             have hg := addPulse_inv (hi c hcm.1) hva.1 hva.2.1 hadd
             have hname : c'.name = n := by rw [hg.2.2.1]; exact hcm.2
             have hget : (s.setChan c').getChan n = some c' := getChan_setChan_same hc hname
-            refine ⟨c, c', last, slot, pr, phaseRef, rfl, hl, hpr, hm, ?_, hl'⟩
+            refine ⟨c, c', last, slot, pr, phaseRef, rfl, hl, hpe.symm, hpr, hm, ?_, hl'⟩
             simp only [hl']
             have hm2 := mapRefs_chans (s.setChan c') c.cfg.basis last.targets
               (·.updateLastUsed slot.tf)
